@@ -206,19 +206,29 @@ def isFramingHeader (n : Bytes) : Bool :=
   l == bytesOfString "host" || l == bytesOfString "content-length" || l == bytesOfString "transfer-encoding" ||
     l == bytesOfString "trailer"
 
+/-- net/http's `fixPragmaCacheControl`: a message whose first `Pragma` value is `no-cache` and that carries no
+    `Cache-Control` header is handed over with `Cache-Control: no-cache` added (library behaviour, modelled: the
+    recorded finding http-pragma-cache-control is that the entry then lists a header nobody sent) -/
+def pragmaFix (hs : List (Bytes × Bytes)) : List (Bytes × Bytes) :=
+  if ((hs.filter fun h => Wire.lower h.1 == bytesOfString "pragma").head?.map (·.2)) == some (bytesOfString "no-cache") &&
+      !hs.any (fun h => Wire.lower h.1 == bytesOfString "cache-control")
+  then hs ++ [(bytesOfString "Cache-Control", bytesOfString "no-cache")] else hs
+
 def reportedHeaders (hs : List (Bytes × Bytes)) : List (Bytes × Bytes) :=
   let kept := (hs.filter fun h => !isFramingHeader h.1).map fun h => (canonicalName h.1, h.2)
   kept.mergeSort fun a b =>
     Sx.hexOfBytes a.1 < Sx.hexOfBytes b.1 || (Sx.hexOfBytes a.1 == Sx.hexOfBytes b.1 && Sx.hexOfBytes a.2 ≤ Sx.hexOfBytes b.2)
 
+/-- the header fields of a message as sent (the spec's side: nothing invented) -/
 def headersSx (hs : List (Bytes × Bytes)) : Sx :=
   .list (.atom "hdr" :: (reportedHeaders hs).map fun (n, v) => .list [Sx.ofBytes n, Sx.ofBytes v])
 
+/-- the header fields the model predicts the dissector to report: those sent, after net/http's Pragma fix -/
 def messageSx (m : Message) : Sx :=
   if m.isRequest then
-    .list [.atom "req", Sx.ofBytes m.method, Sx.ofBytes m.target, Sx.ofNat m.minor, headersSx m.headers, Sx.ofBytes m.body]
+    .list [.atom "req", Sx.ofBytes m.method, Sx.ofBytes m.target, Sx.ofNat m.minor, headersSx (pragmaFix m.headers), Sx.ofBytes m.body]
   else
-    .list [.atom "resp", Sx.ofNat m.status, Sx.ofNat m.minor, headersSx m.headers, Sx.ofBytes m.body]
+    .list [.atom "resp", Sx.ofNat m.status, Sx.ofNat m.minor, headersSx (pragmaFix m.headers), Sx.ofBytes m.body]
 
 /-- the dissection of both halves (client first): the k-th request is paired with the k-th
     response (ordinals of the CounterPair); unanswered requests stay in the matcher -/
